@@ -39,7 +39,7 @@ def plan(prop, tier):
 
 def generate(prop, seed, tier):
     g = Stream(seed, 'gen')
-    rec = g.choice(['none', 'linear', 'any', 'any'])
+    rec = g.choice(['none', 'linear', 'linear-mutual', 'any', 'any'])
     menu = g.choice(['small', 'pos', 'zeros']) if rec != 'none' else g.choice(['prob', 'grid', 'zeros', 'small', 'pos'])
     spec = G.gen_spec(g, recursion=rec, weights=menu, max_nodes=4, max_edges=4, max_dom=2 if rec == 'any' else 3,
                       explicit_ids=g.choice(['mixed', 'none']), shapes=g.random() < 0.6)
